@@ -76,7 +76,6 @@ def setup_for(defs, P, rec):
     s = f"Definition {P} : pm_params := {rec}.\n"
     s += (f"Ltac rn_{P} e := let e1 := eval unfold {', '.join(reversed(rnames))} in e in "
           f"let e2 := eval cbn [{P} {PROJ}] in e1 in e2.\n")
-    s += (f"Lemma sgs_{P} : signum (p_dirz_s {P}) = (if Rle_dec 0 (p_dirz_s {P}) then 1 else -1). Proof. reflexivity. Qed.\n")
     return s
 
 
